@@ -26,7 +26,7 @@ RULE = (
     "compared (skeleton, all values Empty, merge refused), and an existence-based update history (create at fresh "
     "paths, delete existing nodes/attributes, set attributes, recreate deleted paths, require_group) is applied in "
     "lock-step on a patch over the stub and directly on a copy of the real record; the stub's patch is then placed next "
-    "to the real files and the set must open and equal the direct update. non-trivial = real record has >=2 containers "
+    "to the real files and the set must open and equal the direct update (tree and manifest extensions). non-trivial = real record has >=2 containers "
     "and the update history has >=1 successful deletion and >=1 successful creation; distinct = hash of both histories."
 )
 ANCHORS = ["src/metador_core/ih5/manifest.py", "src/metador_core/ih5/skeleton.py"]
@@ -270,6 +270,7 @@ def one(rng, acc, d, record=True):
         S.commit_patch()
         D.commit_patch()
         direct_view = E.dump_walk(D)
+        direct_exts = D.manifest.manifest_exts
         pfile = Path(S.ih5_files[-1])
     finally:
         RE.safe_close(S)
@@ -284,6 +285,10 @@ def one(rng, acc, d, record=True):
         if jv != direct_view:
             df = E.diff_dumps(jv, direct_view)
             return "stub-patch-view", f"real+stub-patch differs from direct update: {df[2] if df else ''}"
+        if J.manifest.manifest_exts != direct_exts:
+            return "stub-patch-exts", (f"manifest extensions of the real record after the stub-made patch are {J.manifest.manifest_exts}, "
+                                       f"after the same update made directly {direct_exts} (nothing overrode them)")
+        acc.count("stub_patch_exts_compared_nonempty") if direct_exts else None
         bad = check_manifest(J, J.manifest.manifest_exts, acc)  # manifest of the stub-made patch describes the joined record
         if bad and bad[0] not in ("manifest-skeleton-index",):
             return ("stub-" + bad[0], bad[1])
@@ -320,7 +325,7 @@ def run_unit(u, acc):
 
 def inconclusive(cov):
     c = cov["counters"]
-    return [f"monitor counter {k} is zero" for k in ("manifest_checks", "refused_commits", "stubs_compared", "stub_patches_joined") if not c.get(k)]
+    return [f"monitor counter {k} is zero" for k in ("manifest_checks", "refused_commits", "stub_patch_exts_compared_nonempty", "stubs_compared", "stub_patches_joined") if not c.get(k)]
 
 
 def replay(case, acc):
